@@ -49,12 +49,12 @@ Qed.
 
 (* ------------------------------------------------------------------ the round trip *)
 Lemma roundtrip_id sh fill (st : state Z) :
-  sh <> [] -> zwf fill sh st -> roundtrip sh fill st = st.
+  zwf fill sh st -> roundtrip sh fill st = st.
 Proof.
-  intros Hsh Hw. unfold roundtrip.
+  intros Hw. unfold roundtrip.
   destruct (dok_tocoo_proof Z Z.eqb fill sh st Hw) as (Hc & _).
   apply canonicalb_spec in Hc.
-  pose proof (from_iter_entries Z Z.eqb Z.add (to_coo sh fill st) Hc (or_introl Hsh)) as Hf.
+  pose proof (from_iter_entries_any Z Z.eqb Z.add (to_coo sh fill st) Hc) as Hf.
   assert (He : entries (to_coo sh fill st) = st) by (unfold entries, to_coo; simpl; apply DOKP.combine_fst_snd).
   rewrite He in Hf. simpl in Hf. rewrite Hf.
   rewrite (dok_items_canonical Z Z.add _ Hc). exact He.
@@ -75,8 +75,7 @@ Proof.
       destruct (step_spec Z Z.eqb zeqb_eq fill sh st (k, arr_of_flat vsh vflat) Hok Hdom) as [Hs Hws].
       split; [exact Hs|apply Hws; exact Hw].
     + split; [reflexivity|exact Hw].
-  - assert (Hsh : sh <> []) by (destruct sh; [discriminate|discriminate]).
-    rewrite (roundtrip_id sh fill st Hsh Hw). split; [reflexivity|exact Hw].
+  - rewrite (roundtrip_id sh fill st Hw). split; [reflexivity|exact Hw].
 Qed.
 
 Lemma np_hstep_ext dt sh (a a' : idx -> Z) o :
@@ -128,10 +127,10 @@ Qed.
 
 (* the round trip alone: asformat("coo") then DOK.from_coo gives back the very same dict *)
 Theorem dok_roundtrip_state_proof dt sh fill ops :
-  shape_ok sh -> sh <> [] -> dtype_ok dt = true -> forallb (hop_dom dt sh) ops = true ->
+  shape_ok sh -> dtype_ok dt = true -> forallb (hop_dom dt sh) ops = true ->
   roundtrip sh fill (hrun dt sh fill ops) = hrun dt sh fill ops.
 Proof.
-  intros Hok Hsh Hdt Hdom. apply roundtrip_id; [exact Hsh|]. apply dok_wf_ext_proof; assumption.
+  intros Hok Hdt Hdom. apply roundtrip_id. apply dok_wf_ext_proof; assumption.
 Qed.
 
 (* ------------------------------------------------------------------ reads through the real path *)
@@ -147,7 +146,7 @@ Proof.
 Qed.
 
 Theorem dok_real_read_proof (kf : nat -> nat) sh fill (st : state Z) (ix : index) :
-  shape_ok sh -> sh <> [] -> zwf fill sh st ->
+  shape_ok sh -> zwf fill sh st ->
   no_zero_step ix = true -> coo_ix_ok sh ix -> fancy_key ix = false ->
   match np_index sh ix with
   | Raise e => real_getitem kf sh fill st ix = Raise e /\ e = IndexError
@@ -161,7 +160,7 @@ Theorem dok_real_read_proof (kf : nat -> nat) sh fill (st : state Z) (ix : index
     end
   end.
 Proof.
-  intros Hok Hsh Hw Hz Hix Harr.
+  intros Hok Hw Hz Hix Harr.
   pose proof (dok_getitem_den_proof Z Z.eqb Z.add kf sh st fill ix
                 (wf_dok_ok sh fill st Hw) (shape_okb_ok sh Hok) Hz Hix Harr) as H.
   unfold real_getitem.
@@ -174,7 +173,7 @@ Qed.
 
 (* after any in-domain history: the real read returns NumPy's x[ix] of NumPy's array *)
 Theorem dok_real_read_after_proof (kf : nat -> nat) dt sh fill ops (ix : index) :
-  shape_ok sh -> sh <> [] -> dtype_ok dt = true -> forallb (hop_dom dt sh) ops = true ->
+  shape_ok sh -> dtype_ok dt = true -> forallb (hop_dom dt sh) ops = true ->
   no_zero_step ix = true -> coo_ix_ok sh ix -> fancy_key ix = false ->
   match np_index sh ix with
   | Raise e => real_getitem kf sh fill (hrun dt sh fill ops) ix = Raise e /\ e = IndexError
@@ -188,8 +187,8 @@ Theorem dok_real_read_after_proof (kf : nat -> nat) dt sh fill ops (ix : index) 
     end
   end.
 Proof.
-  intros Hok Hsh Hdt Hdom Hz Hix Harr.
-  pose proof (dok_real_read_proof kf sh fill (hrun dt sh fill ops) ix Hok Hsh
+  intros Hok Hdt Hdom Hz Hix Harr.
+  pose proof (dok_real_read_proof kf sh fill (hrun dt sh fill ops) ix Hok
                 (dok_wf_ext_proof dt sh fill ops Hok Hdt Hdom) Hz Hix Harr) as H.
   pose proof (dok_refines_dense_ext_proof dt sh fill ops Hok Hdt Hdom) as Hr.
   destruct (np_index sh ix) as [[sh' g]|e]; [|exact H].
@@ -201,7 +200,7 @@ Qed.
 
 (* the index-sequence keys (_fancy_getitem) *)
 Theorem dok_real_fancy_read_after_proof (kf : nat -> nat) dt sh fill ops (ls : list (list Z)) (n : nat) :
-  shape_ok sh -> sh <> [] -> dtype_ok dt = true -> forallb (hop_dom dt sh) ops = true ->
+  shape_ok sh -> dtype_ok dt = true -> forallb (hop_dom dt sh) ops = true ->
   fancy_ok sh ls n ->
   exists g it',
     np_index sh (map IArr ls) = Ok ([Z.of_nat n], g)
@@ -209,7 +208,7 @@ Theorem dok_real_fancy_read_after_proof (kf : nat -> nat) dt sh fill ops (ls : l
     /\ forall j, in_range [Z.of_nat n] j ->
          den (dok_as_coo [Z.of_nat n] it' fill) j = np_hrun dt sh fill ops (g j).
 Proof.
-  intros Hok Hsh Hdt Hdom Hf.
+  intros Hok Hdt Hdom Hf.
   pose proof (dok_wf_ext_proof dt sh fill ops Hok Hdt Hdom) as Hw.
   destruct (dok_fancy_getitem_den_proof Z Z.eqb Z.add kf sh (hrun dt sh fill ops) fill ls n
               (wf_dok_ok sh fill _ Hw) (shape_okb_ok sh Hok) Hf) as (g & it' & H1 & H2 & _ & _ & H5).
